@@ -502,21 +502,21 @@ theorem itemR_spec (T : TiledTab src σ N) {f} (ih : SoundAt src σ N f) {ts ps 
       split at h
       · rename_i d r' hd
         obtain ⟨g1, g2, _⟩ := ih.test _ _ _ (by omega) hd
-        have hitem : ∀ s, RSI src (σ (r0.length + 1 + 1)).1 (σ (r0.length + 1 + 1)).2
-            (.param s (.mk (σ (r0.length + 1 + 1)) (σ (r0.length + 1 + 1)) n (some d))) :=
-          fun s => rsi_param T (by omega) (by omega) (fun e he => by cases he; exact ⟨_, _, g2⟩)
+        have hitem : ∀ s, RSI src (σ (r0.length + 1 + 1)).1 (σ (r'.length + 1)).2
+            (.param s (.mk ((σ (r0.length + 1 + 1)).1, d.range.2) (σ (r0.length + 1 + 1)) n (some d))) :=
+          fun s => rsi_param_default T (by omega) (by omega) (by omega) (by omega) g2
         have hkw := c2 (by omega)
         split at h <;> simp only [Option.some.injEq, Prod.mk.injEq] at h <;> obtain ⟨rfl, rfl, rfl⟩ := h
         · refine ⟨by simp only [List.length_cons]; omega, ?_, c0, fun hle => by omega, c2⟩
           simp only [hkw] at hs ⊢
           rw [argItems_snoc_kwonly]
-          exact seqP_snoc T hs (hitem _) (by omega) (by omega) (by omega) (by omega) (by omega) (by omega) (by omega)
+          exact seqP_snoc_to T hs (hitem _) (by omega) (by omega) (by omega) (by omega) (by omega) (by omega) (by omega) (by omega)
         · rename_i hne
           obtain ⟨v0, k0⟩ := c1 (by omega)
           refine ⟨by simp only [List.length_cons]; omega, ?_, c0, fun _ => ⟨v0, k0⟩, c2⟩
           simp only [hkw, v0, k0] at hs ⊢
           rw [argItems_snoc_args]
-          exact seqP_snoc T hs (hitem _) (by omega) (by omega) (by omega) (by omega) (by omega) (by omega) (by omega)
+          exact seqP_snoc_to T hs (hitem _) (by omega) (by omega) (by omega) (by omega) (by omega) (by omega) (by omega) (by omega)
       · cases h
     · cases h
   · -- bare name
@@ -524,7 +524,7 @@ theorem itemR_spec (T : TiledTab src σ N) {f} (ih : SoundAt src σ N f) {ts ps 
     simp only [List.length_cons] at hs hj h
     have hitem : ∀ s, RSI src (σ (r0.length + 1)).1 (σ (r0.length + 1)).2
         (.param s (.mk (σ (r0.length + 1)) (σ (r0.length + 1)) n none)) :=
-      fun s => rsi_param T (by omega) (by omega) (fun e he => by cases he)
+      fun s => rsi_param T (by omega) (by omega)
     split at h
     · rename_i hph
       simp only [Option.some.injEq, Prod.mk.injEq] at h; obtain ⟨rfl, rfl, rfl⟩ := h
